@@ -39,6 +39,10 @@ def local_arrays_at(path, pos):
                 elif rv["k"] in ("ref", "rawptr") and not [e for e in rv["place"]["p"] if e != "deref"]:
                     src = rv["place"]["l"]
                     alias[l] = alias.get(src, src)
+                elif rv["k"] == "use" and op_const(rv["op"]) is not None and op_const(rv["op"]).get("by_value") and "bytes" in op_const(rv["op"]):
+                    arrays[l] = bytearray(op_const(rv["op"])["bytes"])     # `let mut x = CONST_ARRAY;`
+                elif rv["k"] == "use" and op_place(rv["op"]) is not None and not op_place(rv["op"])["p"] and op_place(rv["op"])["l"] in arrays:
+                    arrays[l] = bytearray(arrays[op_place(rv["op"])["l"]])   # copy / move of a whole array
                 elif rv["k"] == "use":
                     q = op_place(rv["op"])
                     if q is not None and not [e for e in q["p"] if e != "deref"] and (q["l"] in alias or q["l"] in arrays):
